@@ -31,5 +31,6 @@ Merges == phase = "done" => \A j \in 2..NBins(bins) :     \* remove interior edg
    LET mb == Drop(bins, j) IN
    \A c \in DOMAIN W :
      LET mw == KernelW(theta[c], theta[c + 1], mb[j - 1], mb[j], j - 1 = NBins(mb), HalfOpen) IN
-     mw[1] * W[c][j][2] = (W[c][j - 1][1] + W[c][j][1]) * mw[2]
+     \* mw = W[c][j-1] + W[c][j] as rationals (the denominators may differ: an empty overlap is 0/1)
+     mw[1] * (W[c][j - 1][2] * W[c][j][2]) = (W[c][j - 1][1] * W[c][j][2] + W[c][j][1] * W[c][j - 1][2]) * mw[2]
 =============================================================================
